@@ -66,6 +66,9 @@ func txSites(fn *ssa.Function) []txSite {
 			switch a := call.Call.Args[1].(type) {
 			case *ssa.MakeClosure:
 				cl = a.Fn.(*ssa.Function)
+				if m := boundMethodTarget(a); m != nil {
+					cl = m // `op.run` passed as the transaction body: the method is the body
+				}
 			case *ssa.Function:
 				cl = a
 			}
